@@ -34,6 +34,7 @@ func runC02(c *Ctx) {
 	r.Doc("X4", "table key == Priority of the value sent (same SSA value)", 4)
 	r.Doc("X5", "the received value flows only into the Item field of the value sent", 4)
 	r.Doc("X6", "every send on the output executes only in the scheduler goroutine and is reached by an X3 flow", 2)
+	r.Doc("X14", "what is handed to the sending function was received from an input channel by an ordinary receive (no reflection)", 2)
 	r.Doc("X7", "simplified disciplines: per received item exactly one Handle(item) then exactly one release of its priority", 2)
 	c02priority(c, c.V1, "")
 	c02priority(c, c.V2, "")
@@ -267,6 +268,89 @@ func c02priority(c *Ctx, p *Prog, as string) {
 				bad = append(bad, "this output send is not reached from any input receive holding an item (fabricated value)")
 			}
 			r.Check(len(bad) == 0, rn, key, p.InstrPos(ss.In), "scheduler only, fed by an input receive", strings.Join(bad, "; "))
+		}
+	}
+
+	// ---- X14: what is handed to the sending function was received from an input, by a receive the
+	// rules can see. A value of any other origin (rebuilt from a reflect.Select result, say) is
+	// outside X3-X5: nothing ties its tag to the channel it came from
+	{
+		rn, pre := rule("X14")
+		ai := p.alias()
+		n := 0
+		for _, fn := range p.Funcs() {
+			if rel, _ := p.Rel(fn); rel != "priority" {
+				continue
+			}
+			for _, ss := range p.SendSites(fn) {
+				if !outRole[p.chanRole(ss.Chan)] || namedOrigin(fnRecvType(fn)) != d.Named {
+					continue
+				}
+				item := symField(p.Sym(ss.Val), "Item")
+				par, isPar := item.V.(*ssa.Parameter)
+				if !isPar || item.Op != "param" {
+					continue // the send sits where the item is received: X3 covers it
+				}
+				idx := paramIndex(fn, par)
+				for _, cs := range p.CallSites(fn) {
+					if idx < 0 || idx >= len(cs.Common().Args) {
+						continue
+					}
+					n++
+					var bad []string
+					var up func(v ssa.Value, depth int)
+					up = func(v ssa.Value, depth int) {
+						for _, root := range ai.Roots(v) {
+							if root.Kind == "recv" {
+								continue
+							}
+							// handed down through a private helper (forward(item, opened, priority))
+							if par, isP := root.V.(*ssa.Parameter); isP && root.Kind == "param" && depth < 3 {
+								if obj, _ := par.Parent().Object().(*types.Func); obj != nil && !obj.Exported() {
+									if sites := p.CallSites(p.Norm(par.Parent())); len(sites) > 0 {
+										pi := paramIndex(par.Parent(), par)
+										okAll := true
+										for _, s2 := range sites {
+											if _, isGo := s2.(*ssa.Go); isGo || pi < 0 || pi >= len(s2.Common().Args) {
+												okAll = false
+												break
+											}
+										}
+										if okAll {
+											for _, s2 := range sites {
+												up(s2.Common().Args[pi], depth+1)
+											}
+											continue
+										}
+									}
+								}
+							}
+							bad = append(bad, root.String())
+						}
+					}
+					up(cs.Common().Args[idx], 0)
+					r.Check(len(bad) == 0, rn, fmt.Sprintf("%s%s#item.%d", pre, p.FnKey(cs.Parent()), n), p.InstrPos(cs), "the item handed to the sending function was received from an input",
+						"the value handed to the sending function at "+p.InstrPos(cs)+" does not come from a receive on an input channel ("+strings.Join(dedup(bad), ", ")+"): its tag is not tied to the channel it was read from, and it may be an item nobody wrote")
+				}
+			}
+			for _, b := range fn.Blocks {
+				for _, in := range b.Instrs {
+					call, ok := in.(ssa.CallInstruction)
+					if !ok {
+						continue
+					}
+					if cal := p.Callee(call); cal != nil {
+						switch p.funcDisplay(cal) {
+						case "reflect.Select", "(reflect.Value).Recv", "(reflect.Value).TryRecv", "(reflect.Value).Send", "(reflect.Value).TrySend", "(reflect.Value).Close":
+							n++
+							r.Fail(rn, fmt.Sprintf("%s%s#reflect.%d", pre, p.FnKey(fn), n), p.InstrPos(in), "UNDECIDED: channel operation through reflection ("+p.funcDisplay(cal)+"): receives and sends made this way are invisible to the item-flow rules")
+						}
+					}
+				}
+			}
+		}
+		if n == 0 {
+			r.Pass(rn, pre+p.Name+":priority#item", "-", "the sending function is called only where the item is received")
 		}
 	}
 
